@@ -379,6 +379,22 @@ class Gen:
             v = self.declare(Var(name, t, [(0, 10)], kind))
             self.note('implicit_array')
             return A.LV(v.name, [self.index_expr(0, 10)], [], t)
+        if self.scope is not self.main and self.chance(0.2):
+            # shadowing: an undeclared name in a procedure that the module
+            # level declares with DIM ... AS (not SHARED) is a fresh local of
+            # the default type
+            cands = [v.name for v in self.main.vars.values()
+                     if v.kind == 'local' and v.name[-1] not in '%&!#$' and
+                     v.name not in self.scope.vars and
+                     v.name not in self.shared and
+                     self.match(self.default_type_of(v.name), want)]
+            if cands:
+                name = self.pick(cands)
+                tt = self.default_type_of(name)
+                kind = 'static' if self.scope.static else 'local'
+                self.declare(Var(name, tt, None, kind))
+                self.note('shadow_module_name')
+                return A.LV(name, [], [], tt)
         v = self.new_scalar(t)
         return A.LV(v.name, [], [], t)
 
